@@ -113,6 +113,23 @@ Theorem C01_time_formula_never_after_its_dates :
 Proof. exact TimeFormula.never_after_all_dates. Qed.
 Print Assumptions C01_time_formula_never_after_its_dates.
 
+(** One [time >= d] / [time == d] object used by several simulations (finding D24, repaired in /repo): with the repaired
+    [After._ensure_trigger] - which remembers the LOOP in which its trigger lives - every loop in which somebody subscribes
+    has a trigger of its own, for every history of uses (successive, repeated, nested), and no other loop gets one; with
+    the boolean it used before, a second loop never got one.  (Implementation side: the `reused-conditions` family.) *)
+From Usim Require AfterReuse.
+Theorem C01_reused_condition_every_loop_has_its_trigger :
+  forall uses l, In l uses <-> In l (AfterReuse.triggers (AfterReuse.run AfterReuse.ensure_fixed None uses)).
+Proof.
+  exact (fun uses l => conj (AfterReuse.fixed_every_loop_has_a_trigger uses l) (AfterReuse.fixed_only_subscribed_loops uses l)).
+Qed.
+Print Assumptions C01_reused_condition_every_loop_has_its_trigger.
+
+Theorem C01_reused_condition_with_a_sticky_flag_refuted :
+  exists uses l, In l uses /\ ~ In l (AfterReuse.triggers (AfterReuse.run AfterReuse.ensure_flag false uses)).
+Proof. exact AfterReuse.flag_second_loop_has_no_trigger_refuted. Qed.
+Print Assumptions C01_reused_condition_with_a_sticky_flag_refuted.
+
 (** (A) the tie to /repo's current source: every function this property's models were transcribed from has, in the
     tree this run is checking, the normalised source it had when the models were validated (hashes regenerated from
     /repo into gen/Generated.v on every run; pins in gen/SourcePins.v).  A change to one of them invalidates the
